@@ -208,6 +208,10 @@ func C20_BlockProof() {
 	inst := primitives.InstanceId(env.NondetU64("instance"))
 	seed := env.NondetU64("seed")
 	ps := c20Parties(reg, inst, commits, idLen, seed)
+	for i, p := range ps {
+		// shares of length 0 are within the quantification (lengths 0..256)
+		p.km.EmptyShares = env.Param("emptyshares")&(1<<uint(i)) != 0
+	}
 	h := primitives.BlockHeight(env.NondetU64("height"))
 	v := primitives.View(env.NondetU64("view"))
 	hash := primitives.BlockHash(env.NondetBytes("hash", hashLen))
